@@ -412,16 +412,73 @@ Proof.
   all: try (destruct (Hpriv z eq_refl) as (Q1 & Q2 & Q3 & Q4); unfold privR, zown, znx, znd in *; rewrite Q1, Q2, Q3;
             repeat match goal with H : _ /\ _ |- _ => destruct H | H : exists _, _ |- _ => destruct H end;
             repeat (first [split | eexists]); eauto; fail).
+  all: try (destruct (Hpriv z eq_refl) as (Q1 & Q2 & Q3 & Q4); unfold privR, zown, znx, znd in *; rewrite ?Q1, ?Q2, ?Q3;
+            intuition eauto; fail).
   (* scanning *)
-  all: try (destruct (Hown eq_refl) as [Ha Hx]; rewrite Hx).
+  all: try (destruct (Hown eq_refl) as [Ha Hx]).
+  all: try rewrite Hx.
   all: try (destruct H as (P1 & P2); split; [apply Scan; auto; apply (Hscan n eq_refl); apply P1|exact P2]).
   all: try (destruct H as (P1 & P2 & P3); split; [apply Scan; auto; apply (Hscan n eq_refl); apply P1|split; [|exact P3]];
             apply Hun; [apply P1|exact P2]).
   (* reclaiming *)
-  all: try (destruct (Hreg n eq_refl) as [R1 R2]; unfold znd, znx; rewrite R1, R2).
+  all: try (destruct (Hreg n eq_refl) as [R1 R2]; unfold znd, znx; rewrite ?R1, ?R2).
   all: try (assert (inlog g' n) as Hn' by
-              (destruct H as ((N1 & N2) & _); split; [apply Hz; exact N1|rewrite R1; exact N2])).
+              (destruct H as (((N1 & N2) & _) & _); split; [apply Hz; exact N1|rewrite R1; exact N2])).
   all: try (destruct H as (P1 & P2 & P3); split; [apply Reg; auto|split; [exact P2|exact P3]]).
   all: try (destruct H as (P1 & P2); split; [apply Reg; auto|exact P2]).
   all: try (apply Old; auto).
 Qed.
+
+(* ---------- updates of one record cell that is on the log ---------- *)
+Record onecell (g g' : glob) (k : nat) : Prop := {
+  oc_zlog : zlog g' = zlog g;
+  oc_zhead : zhead g' = zhead g;
+  oc_isrec : forall j, isrec g' j = isrec g j;
+  oc_isnode : forall j, isnode g' j = isnode g j;
+  oc_grec : forall j, j <> k -> grec g' j = grec g j;
+  oc_cs : forall j, j <> k -> cs_of g' j = cs_of g j
+}.
+Lemma onecell_destroy g k : onecell g (fst (do_destroy g k)) k /\ grec (fst (do_destroy g k)) k = grec g k.
+Proof.
+  destruct (destroy_fields g k) as (F1 & F2 & F3 & F4 & F5 & F6 & F7 & F8 & F9 & F10 & F11 & F12).
+  split; [constructor; auto|apply grec_destroy].
+  - intros j. apply isrec_destroy.
+  - intros j. apply isnode_destroy.
+  - intros j _. apply grec_destroy.
+  - intros j Hj. rewrite cs_of_destroy. destruct (Nat.eqb_spec j k); [contradiction|reflexivity].
+Qed.
+Lemma onecell_dealloc g k : onecell g (fst (do_dealloc g k)) k /\ grec (fst (do_dealloc g k)) k = grec g k.
+Proof.
+  destruct (dealloc_fields g k) as (F1 & F2 & F3 & F4 & F5 & F6 & F7 & F8 & F9 & F10 & F11 & F12).
+  split; [constructor; auto|apply grec_dealloc].
+  - intros j. apply isrec_dealloc.
+  - intros j. apply isnode_dealloc.
+  - intros j _. apply grec_dealloc.
+  - intros j Hj. rewrite cs_of_dealloc. destruct (Nat.eqb_spec j k); [contradiction|reflexivity].
+Qed.
+Lemma onecell_setz g k r : isrec g k = true -> onecell g (setz g k r) k /\ cs_of (setz g k r) k = cs_of g k /\ grec (setz g k r) k = r.
+Proof.
+  intros H. destruct (modc_fields g k (set_body (BRec r))) as (F1 & F2 & F3 & F4 & F5 & F6 & F7 & F8 & F9 & F10 & F11 & F12).
+  split; [constructor; auto|split; [apply cs_of_setz|apply grec_setz_eq; apply isrec_lt; exact H]].
+  - intros j. apply isrec_setz. exact H.
+  - intros j. apply isnode_setz. exact H.
+  - intros j Hj. apply grec_setz_ne. exact Hj.
+  - intros j _. apply cs_of_setz.
+Qed.
+Lemma onecell_fault g g' k : onecell g g' k -> onecell g (with_fault g') k.
+Proof. intros [A B C D E F]. constructor; auto. Qed.
+
+Section OneCell.
+  Variables (g g' : glob) (k : nat).
+  Hypothesis O : onecell g g' k.
+  Lemma oc_zsq c : zsq g' c = zsq g c.
+  Proof. unfold zsq. rewrite (oc_zlog _ _ _ O). reflexivity. Qed.
+  Lemma oc_zown c : c <> k -> zown g' c = zown g c.
+  Proof. intros H. unfold zown. rewrite (oc_grec _ _ _ O c H). reflexivity. Qed.
+  Lemma oc_znx c : c <> k -> znx g' c = znx g c.
+  Proof. intros H. unfold znx. rewrite (oc_grec _ _ _ O c H). reflexivity. Qed.
+  Lemma oc_znd c : c <> k -> znd g' c = znd g c.
+  Proof. intros H. unfold znd. rewrite (oc_grec _ _ _ O c H). reflexivity. Qed.
+  Lemma oc_inlog c : c <> k -> (inlog g' c <-> inlog g c).
+  Proof. intros H. unfold inlog. rewrite (oc_zlog _ _ _ O), (oc_cs _ _ _ O c H). tauto. Qed.
+End OneCell.
